@@ -279,3 +279,35 @@ package redis
 //@   modifies all
 //@   ensures @ri d.br == old(d.br) && readerRI(d.br)
 //@   ensures @value result1 == nil ==> result0 != nil
+
+// ---- RESP value constructors -----------------------------------------------------------
+
+//@ func newArray
+//@   prop C10 C11 C01
+//@   modifies nothing
+//@   ensures @value result != nil && fresh(result) && result.Type == 42 && result.Array == array
+
+//@ func newError
+//@   prop C01 C11
+//@   modifies nothing
+//@   ensures @value result != nil && fresh(result) && result.Type == 45 && str(result.Text) == s && fresh(result.Text)
+
+//@ func newSimpleString
+//@   prop C01
+//@   modifies nothing
+//@   ensures @value result != nil && fresh(result) && result.Type == 43 && str(result.Text) == s
+
+//@ func newBulkString
+//@   prop C01 C11
+//@   modifies nothing
+//@   ensures @value result != nil && fresh(result) && result.Type == 36 && str(result.Text) == s && !isnil(result.Text)
+
+//@ func newBulkBytes
+//@   prop C01
+//@   modifies nothing
+//@   ensures @value result != nil && fresh(result) && result.Type == 36 && result.Text == b
+
+//@ func newInteger
+//@   prop C01
+//@   modifies nothing
+//@   ensures @value result != nil && fresh(result) && result.Type == 58 && result.Int == i
